@@ -152,6 +152,19 @@ def check_case(ctx, pm, H, tmpdir):
             raise RuntimeError("generator produced an invalid op: %r (%s)" % (op, reason))
     expected = model.state()
     exp_comp = FI.expected_compose(H["compose"])
+    if kind == "extra" and len(H["ops"]) % 2 == 0:
+        # the per-tree exports are taken before the manifest itself is written (what a compose tool does): they are
+        # read-only views, the manifest written afterwards is still the one the add calls built
+        import io as _io
+        for (variant, arches) in sorted(getattr(real, "extra_files", {}).items()):
+            for arch, items in sorted(arches.items()):
+                if items:
+                    base = items[0]["file"].rsplit("/", 1)[0] if "/" in items[0]["file"] else ""
+                    try:
+                        real.dump_for_tree(_io.StringIO(), variant, arch, base)
+                        ctx.count("extra-exported-per-tree-before-write")
+                    except Exception:
+                        pass
     try:
         t1 = real.dumps()
     except Exception as e:   # refused to write (any exception): outside this property, judged by C06
